@@ -125,6 +125,10 @@ def sessionLine (s : St) (ts : List String) : Option (St × String) :=
     match parseCfg args with
     | some c => some ({ s with cfg := c }, "ok")
     | none => some (s, "bad-op")
+  | ["end", _vb] =>
+    -- a regular stream end of one (not the last) vBucket: `listenEnd` only counts it; positions, dirty marks, flag and store are
+    -- untouched - the model state is unchanged.  What later saves write shows whether the real code agrees.
+    if s.isOpen then some (s, "ended") else some (s, "bad:vb not streamed")
   | ["sv", k, "lockwait"] =>
     -- saver k is let go on while another saver holds `saveLock`: it must block in `saveLock.Lock()` (no state change);
     -- once the holder returns it dumps at once - the harness issues `sv k dump` right after the holder's last step
